@@ -281,3 +281,171 @@ Definition read_array (sh : shape) (s : str) : option (list (tree A)) :=
 (* writeUnformatted(ostream&, Array_<T>) *)
 Definition write_array (l : list (tree A)) : str := join 32 (map write l).
 End Unformatted.
+
+(* ------------------------------------------------------------------ XML character data (TinyXML as used by Xml.cpp) *)
+(* Bytes of element text and attribute values.  Writer: TiXmlBase::EncodeString (tinyxml.cpp); reader:
+   TiXmlBase::GetEntity / GetChar / ReadText (tinyxmlparser.cpp) and the blank-text rule of
+   TiXmlElement::ReadValue.  Input bytes are 7-bit (UTF-8 lead bytes in the INPUT are not modelled; numeric
+   references above 127 are, through ConvertUTF32ToUTF8). *)
+Definition c_amp : N := 38.
+Definition c_hash : N := 35.
+Definition c_x : N := 120.
+Definition c_semi : N := 59.
+Definition e_amp : str := [38; 97; 109; 112; 59].            (* "&amp;" *)
+Definition e_lt : str := [38; 108; 116; 59].                 (* "&lt;" *)
+Definition e_gt : str := [38; 103; 116; 59].                 (* "&gt;" *)
+Definition e_quot : str := [38; 113; 117; 111; 116; 59].     (* "&quot;" *)
+Definition e_apos : str := [38; 97; 112; 111; 115; 59].      (* "&apos;" *)
+
+Definition hex_upper (d : N) : N := if d <? 10 then d + 48 else d + 55.      (* "%X" of one digit *)
+(* one character through EncodeString: [cw] = condenseWhiteSpace, [kq] = keepQuotes *)
+Definition enc1 (cw kq : bool) (c : N) : str :=
+  if c =? 38 then e_amp
+  else if c =? 60 then e_lt
+  else if c =? 62 then e_gt
+  else if (c =? 34) && negb kq then e_quot
+  else if (c =? 39) && negb kq then e_apos
+  else if (c <? 32) && (cw || negb (is_space c)) then [38; 35; 120; hex_upper (c / 16); hex_upper (c mod 16); 59]   (* "&#x%02X;" *)
+  else [c].
+
+(* EncodeString.  [pass] = inside the loop that copies an existing "&#x...;" through unchanged *)
+Fixpoint xml_enc (cw kq pass : bool) (s : str) : str :=
+  match s with
+  | [] => []
+  | c :: t =>
+      if pass then
+        match t with
+        | [] => enc1 cw kq c
+        | d :: _ => c :: xml_enc cw kq (negb (d =? c_semi)) t
+        end
+      else
+        match t with
+        | d1 :: d2 :: _ => if (c =? c_amp) && (d1 =? c_hash) && (d2 =? c_x) then c :: xml_enc cw kq true t
+                           else enc1 cw kq c ++ xml_enc cw kq false t
+        | _ => enc1 cw kq c ++ xml_enc cw kq false t
+        end
+  end.
+Definition xml_encode (cw kq : bool) (s : str) : str := xml_enc cw kq false s.
+
+Fixpoint split_at (ch : N) (s : str) : option (str * str) :=      (* strchr: text before the first ch, text after it *)
+  match s with
+  | [] => None
+  | c :: t => if c =? ch then Some ([], t)
+              else match split_at ch t with Some (a, b) => Some (c :: a, b) | None => None end
+  end.
+
+Definition hex_digit (c : N) : option N :=
+  if (48 <=? c) && (c <=? 57) then Some (c - 48)
+  else if (97 <=? c) && (c <=? 102) then Some (c - 87)
+  else if (65 <=? c) && (c <=? 70) then Some (c - 55)
+  else None.
+Definition dec_digit (c : N) : option N := if (48 <=? c) && (c <=? 57) then Some (c - 48) else None.
+
+(* the backward accumulation loops of GetEntity: digits from the last one down to the stop character;
+   mult is an unsigned (32 bit), ucs an unsigned long *)
+Fixpoint acc_digits (dig : N -> option N) (base stop : N) (rev_digits : str) (ucs mult : N) : option N :=
+  match rev_digits with
+  | [] => Some ucs
+  | c :: t => if c =? stop then Some ucs
+              else match dig c with
+                   | Some d => acc_digits dig base stop t (ucs + mult * d) ((mult * base) mod 4294967296)
+                   | None => None
+                   end
+  end.
+
+(* ConvertUTF32ToUTF8 *)
+Definition utf8_of (u : N) : str :=
+  if u <? 128 then [u]
+  else if u <? 2048 then [192 + u / 64; 128 + u mod 64]
+  else if u <? 65536 then [224 + u / 4096; 128 + (u / 64) mod 64; 128 + u mod 64]
+  else if u <? 2097152 then [240 + u / 262144; 128 + (u / 4096) mod 64; 128 + (u / 64) mod 64; 128 + u mod 64]
+  else [].
+
+Fixpoint prefix_eqb (pre s : str) : bool :=
+  match pre, s with
+  | [], _ => true
+  | x :: p, y :: t => (x =? y) && prefix_eqb p t
+  | _, [] => false
+  end.
+Fixpoint drop (n : nat) (s : str) : str := match n, s with O, _ => s | S k, _ :: t => drop k t | _, [] => [] end.
+
+(* GetEntity on the text following the '&': (bytes produced, unread rest); None = parse error *)
+Definition get_entity (utf8 : bool) (t : str) : option (str * str) :=
+  let numeric (u : N) (rest : str) := Some (if utf8 then utf8_of u else [u mod 256], rest) in
+  match t with
+  | h :: c2 :: t2 =>
+      if h =? c_hash then
+        if c2 =? c_x then
+          match t2 with
+          | [] => None
+          | _ => match split_at c_semi t2 with
+                 | Some (ds, rest) => match acc_digits hex_digit 16 c_x (rev ds) 0 1 with
+                                      | Some u => numeric u rest | None => None end
+                 | None => None
+                 end
+          end
+        else
+          match split_at c_semi (c2 :: t2) with
+          | Some (ds, rest) => match acc_digits dec_digit 10 c_hash (rev ds) 0 1 with
+                               | Some u => numeric u rest | None => None end
+          | None => None
+          end
+      else
+        let s := c_amp :: t in
+        if prefix_eqb e_amp s then Some ([38], drop 4 t)
+        else if prefix_eqb e_lt s then Some ([60], drop 3 t)
+        else if prefix_eqb e_gt s then Some ([62], drop 3 t)
+        else if prefix_eqb e_quot s then Some ([34], drop 5 t)
+        else if prefix_eqb e_apos s then Some ([39], drop 5 t)
+        else Some ([], t)                              (* unrecognized: the '&' is dropped *)
+  | _ =>
+      let s := c_amp :: t in                           (* "&" or "&c" at the end of the input *)
+      if prefix_eqb e_amp s then Some ([38], drop 4 t) else Some ([], t)
+  end.
+
+(* GetChar on 7-bit input *)
+Definition get_char (utf8 : bool) (s : str) : option (str * str) :=
+  match s with
+  | [] => Some ([], [])
+  | c :: t => if c =? c_amp then get_entity utf8 t else Some ([c], t)
+  end.
+
+(* ReadText, white space kept (attribute values always; element text when condensing is off) *)
+Fixpoint read_keep (utf8 : bool) (fuel : nat) (s : str) : option str :=
+  match s with
+  | [] => Some []
+  | _ => match fuel with
+         | O => None
+         | S k => match get_char utf8 s with
+                  | Some (v, rest) => match read_keep utf8 k rest with Some r => Some (v ++ r) | None => None end
+                  | None => None
+                  end
+         end
+  end.
+
+(* ReadText with condensing: leading white space skipped, runs become one blank, trailing dropped;
+   decoded references are never treated as white space *)
+Fixpoint read_condense (utf8 : bool) (fuel : nat) (pending : bool) (s : str) : option str :=
+  match s with
+  | [] => Some []
+  | c :: t =>
+      match fuel with
+      | O => None
+      | S k => if is_space c then read_condense utf8 k true t
+               else match get_char utf8 s with
+                    | Some (v, rest) => match read_condense utf8 k false rest with
+                                        | Some r => Some ((if pending then [32] else []) ++ v ++ r)
+                                        | None => None
+                                        end
+                    | None => None
+                    end
+      end
+  end.
+
+(* element text as getValue() sees it: blank text nodes are dropped (TiXmlElement::ReadValue) *)
+Definition xml_read_text (cw utf8 : bool) (s : str) : option str :=
+  match (if cw then read_condense utf8 (S (length s)) false (drop_ws s) else read_keep utf8 (S (length s)) s) with
+  | Some r => Some (if all_space r then [] else r)
+  | None => None
+  end.
+Definition xml_read_attr (utf8 : bool) (s : str) : option str := read_keep utf8 (S (length s)) s.
